@@ -12,6 +12,7 @@ import (
 	"encoding/binary"
 	"fmt"
 	"io"
+	"math/big"
 	"os"
 	"sort"
 	"strings"
@@ -19,6 +20,7 @@ import (
 	"testing"
 	"time"
 
+	bls12 "github.com/kilic/bls12-381"
 	"github.com/relab/hotstuff"
 	"github.com/relab/hotstuff/core"
 	"github.com/relab/hotstuff/core/eventloop"
@@ -54,17 +56,21 @@ type c07Meaning struct {
 }
 
 type c07Univ struct {
-	scheme  string
-	n, q    int                   // the membership the replica under test currently has (a growth world starts smaller)
-	nFull   int                   // all replicas with keys in this universe
-	keys    []hotstuff.PrivateKey // keys[i-1] belongs to replica i; keys[n] to the outsider n+1
-	infos   []hotstuff.ReplicaInfo
-	bases   []crypto.Base
-	hashIdx map[hotstuff.Hash]uint64
-	blocks  map[string]*hotstuff.Block
-	bbytes  map[string]*hotstuff.Block // block.ToBytes() -> block
-	sigMemo map[string][]byte
-	garbage int
+	scheme string
+	n, q   int // the membership the replica under test currently has (a growth world starts smaller)
+	nFull  int // all replicas with keys in this universe
+	// BLS worlds with a member whose proof of possession is bad (set per world by c07NewWorld)
+	rogueX   *big.Int              // the scalar behind a rogue public key x*G1 - sum(other keys), nil if none
+	rogueSet []int                 // the members named by a forged aggregate (those whose keys were subtracted + the rogue)
+	unusable map[int]bool          // members whose registered key must not count (bad or missing proof)
+	keys     []hotstuff.PrivateKey // keys[i-1] belongs to replica i; keys[n] to the outsider n+1
+	infos    []hotstuff.ReplicaInfo
+	bases    []crypto.Base
+	hashIdx  map[hotstuff.Hash]uint64
+	blocks   map[string]*hotstuff.Block
+	bbytes   map[string]*hotstuff.Block // block.ToBytes() -> block
+	sigMemo  map[string][]byte
+	garbage  int
 }
 
 func c07Key(scheme string) hotstuff.PrivateKey {
@@ -72,6 +78,8 @@ func c07Key(scheme string) hotstuff.PrivateKey {
 	var err error
 	if scheme == crypto.NameECDSA {
 		k, err = keygen.GenerateECDSAPrivateKey()
+	} else if scheme == crypto.NameBLS12 {
+		k, err = crypto.GenerateBLS12PrivateKey()
 	} else {
 		_, k, err = keygen.GenerateED25519Key()
 	}
@@ -94,7 +102,8 @@ func c07NewUniv(scheme string, n int) *c07Univ {
 		}
 		u.bases = append(u.bases, b)
 		if i < n {
-			u.infos = append(u.infos, hotstuff.ReplicaInfo{ID: hotstuff.ID(i + 1), PubKey: k.Public()})
+			// (BLS: creating the crypto base put the proof of possession into the connection metadata)
+			u.infos = append(u.infos, hotstuff.ReplicaInfo{ID: hotstuff.ID(i + 1), PubKey: k.Public(), Metadata: cfg.ConnectionMetadata()})
 		}
 	}
 	u.hashIdx[hotstuff.Hash{}] = 0
@@ -187,12 +196,40 @@ func (u *c07Univ) multi(parts []c07Part) (hotstuff.QuorumSignature, []c07Contrib
 		if p.signer == 0 {
 			b := make([]byte, 64)
 			_, _ = rand.Read(b)
+			if u.scheme == crypto.NameBLS12 { // a well-formed point that is nobody's signature
+				g2 := bls12.NewG2()
+				pt, err := g2.HashToCurve(b, []byte("C07-GARBAGE"))
+				if err != nil {
+					panic(err)
+				}
+				b = g2.ToCompressed(pt)
+			}
 			raw[i] = b
 			u.garbage++
 			continue
 		}
 		raw[i] = u.sigBytes(p.signer, p.msg)
 		contribs = append(contribs, c07Contrib{p.signer, string(p.msg)})
+	}
+	if u.scheme == crypto.NameBLS12 {
+		// an aggregate: the sum of the entries' points with the set of claimed signers (a repeated label cannot
+		// be expressed; the repeated point is still added)
+		g2 := bls12.NewG2()
+		agg := g2.Zero()
+		var bf crypto.Bitfield
+		for i, p := range parts {
+			pt, err := g2.FromCompressed(raw[i])
+			if err != nil {
+				panic(err)
+			}
+			g2.Add(agg, agg, pt)
+			bf.Add(hotstuff.ID(p.label))
+		}
+		obj, err := crypto.RestoreBLS12AggregateSignature(g2.ToCompressed(agg), bf)
+		if err != nil {
+			panic(err)
+		}
+		return obj, contribs
 	}
 	if u.scheme == crypto.NameECDSA {
 		m := make(crypto.Multi[*crypto.ECDSASignature], len(parts))
@@ -206,6 +243,37 @@ func (u *c07Univ) multi(parts []c07Part) (hotstuff.QuorumSignature, []c07Contrib
 		m[i] = crypto.RestoreEDDSASignature(raw[i], hotstuff.ID(p.label))
 	}
 	return m, contribs
+}
+
+var c07BLSDomain = []byte("BLS_SIG_BLS12381G2_XMD:SHA-256_SSWU_RO_POP_")
+
+// forge: x*H(m) for the scalar x of the rogue key pk = x*G1 - sum(pk_k, k in S): it satisfies the pairing equation
+// of the aggregate key of S + the rogue member although nobody signed m.  It verifies iff the rogue key is used,
+// which its (invalid) proof of possession must prevent.  Without a rogue member: a point that is nobody's signature.
+func (u *c07Univ) forge(msg []byte) hotstuff.QuorumSignature {
+	if u.rogueX == nil {
+		var ps []c07Part
+		for i := 1; i <= u.q; i++ {
+			ps = append(ps, c07Part{i, 0, nil})
+		}
+		sig, _ := u.multi(ps)
+		return sig
+	}
+	g2 := bls12.NewG2()
+	pt, err := g2.HashToCurve(msg, c07BLSDomain)
+	if err != nil {
+		panic(err)
+	}
+	g2.MulScalarBig(pt, pt, u.rogueX)
+	var bf crypto.Bitfield
+	for _, i := range u.rogueSet {
+		bf.Add(hotstuff.ID(i))
+	}
+	obj, err := crypto.RestoreBLS12AggregateSignature(g2.ToCompressed(pt), bf)
+	if err != nil {
+		panic(err)
+	}
+	return obj
 }
 
 // signer patterns shared by the three certificate kinds.  msgOf gives the message replica i would sign,
@@ -306,6 +374,9 @@ func (u *c07Univ) buildQC(s c07QCSpec) (hotstuff.QuorumCert, []c07Contrib) {
 	if s.Kind == "nilsig" {
 		return hotstuff.NewQuorumCert(nil, b.View(), b.Hash()), nil
 	}
+	if s.Kind == "forge" {
+		return hotstuff.NewQuorumCert(u.forge(b.ToBytes()), b.View(), b.Hash()), nil
+	}
 	kind, label := s.Kind, b.View()
 	if s.Kind == "relabel" {
 		kind, label = "valid", hotstuff.View(s.Label)
@@ -340,6 +411,9 @@ func (s c07TCSpec) String() string {
 func (u *c07Univ) buildTC(s c07TCSpec) (hotstuff.TimeoutCert, []c07Contrib) {
 	if s.Kind == "zero" {
 		return hotstuff.NewTimeoutCert(nil, 0), nil
+	}
+	if s.Kind == "forge" {
+		return hotstuff.NewTimeoutCert(u.forge(hotstuff.View(s.View).ToBytes()), hotstuff.View(s.View)), nil
 	}
 	kind, signed := s.Kind, s.View
 	if s.Kind == "relabel" {
@@ -508,6 +582,7 @@ type c07Opt struct {
 	n0       int      // replicas configured at creation (0 = all); the "grow" stimulus adds the rest
 	stored   []string // blocks in the local store
 	remote   []string // blocks a peer can serve
+	badPop   string   // BLS: member 4's proof of possession: "" good | rogue | rogue13 | other-key | garbage | missing
 }
 
 func (o c07Opt) tag() string {
@@ -526,6 +601,9 @@ func (o c07Opt) tag() string {
 	}
 	if o.n0 > 0 {
 		t += fmt.Sprintf("/grow%d", o.n0)
+	}
+	if o.badPop != "" {
+		t += "/pop-" + o.badPop
 	}
 	for _, b := range o.stored {
 		if b == "r10" {
@@ -773,8 +851,13 @@ func c07NewWorld(u *c07Univ, agg bool, leader int, opt c07Opt) *c07World {
 	}
 	cfg := core.NewRuntimeConfig(1, u.keys[0], opts...)
 	w.cfg = cfg
-	for i := range u.infos[:u.n] {
-		info := u.infos[i]
+	infos := append([]hotstuff.ReplicaInfo(nil), u.infos...)
+	u.rogueX, u.rogueSet, u.unusable = nil, nil, map[int]bool{}
+	if opt.badPop != "" && u.scheme == crypto.NameBLS12 {
+		c07BadPop(u, infos, opt.badPop)
+	}
+	for i := range infos[:u.n] {
+		info := infos[i]
 		cfg.AddReplica(&info)
 	}
 	base, err := crypto.New(cfg, u.scheme)
@@ -829,6 +912,66 @@ func c07NewWorld(u *c07Univ, agg bool, leader int, opt c07Opt) *c07World {
 		w.remote[u.blocks[nm].Hash()] = u.blocks[nm]
 	}
 	return w
+}
+
+const c07PopKey = "bls12-pop-bin"
+
+// c07BadPop registers member 4 with a bad proof of possession (after c02's worlds for C02):
+//
+//	missing    no proof in its metadata
+//	garbage    a well-formed G2 point that proves nothing
+//	other-key  replica 1's proof
+//	rogue      public key x*G1 - (pk1+pk2+pk3) with replica 1's proof; rogue13: x*G1 - (pk1+pk3)
+func c07BadPop(u *c07Univ, infos []hotstuff.ReplicaInfo, kind string) {
+	const j = 3
+	md := map[string]string{}
+	for k, v := range infos[j].Metadata {
+		md[k] = v
+	}
+	u.unusable[j+1] = true
+	switch kind {
+	case "missing":
+		delete(md, c07PopKey)
+	case "garbage":
+		g2 := bls12.NewG2()
+		b := make([]byte, 32)
+		_, _ = rand.Read(b)
+		pt, err := g2.HashToCurve(b, []byte("C07-GARBAGE-POP"))
+		if err != nil {
+			panic(err)
+		}
+		md[c07PopKey] = string(g2.ToCompressed(pt))
+	case "other-key":
+		md[c07PopKey] = infos[0].Metadata[c07PopKey]
+	case "rogue", "rogue13":
+		others := []int{1, 2, 3}
+		if kind == "rogue13" {
+			others = []int{1, 3}
+		}
+		g1 := bls12.NewG1()
+		sum := g1.Zero()
+		for _, k := range others {
+			p, err := g1.FromCompressed(infos[k-1].PubKey.(*crypto.BLS12PublicKey).ToBytes())
+			if err != nil {
+				panic(err)
+			}
+			g1.Add(sum, sum, p)
+		}
+		xb := make([]byte, 31)
+		_, _ = rand.Read(xb)
+		u.rogueX = new(big.Int).SetBytes(xb)
+		pk := g1.New()
+		g1.MulScalarBig(pk, g1.One(), u.rogueX)
+		g1.Sub(pk, pk, sum)
+		rogue := &crypto.BLS12PublicKey{}
+		if err := rogue.FromBytes(g1.ToCompressed(pk)); err != nil {
+			panic(err)
+		}
+		infos[j].PubKey = rogue
+		md[c07PopKey] = infos[0].Metadata[c07PopKey]
+		u.rogueSet = append(append([]int{}, others...), j+1)
+	}
+	infos[j].Metadata = md
 }
 
 func (w *c07World) obs() c07Obs {
@@ -1021,7 +1164,7 @@ func (w *c07World) evidence(v uint64) bool {
 	groups := map[string]map[int]bool{}
 	for c := range w.held {
 		m := w.u.meaning(c.msg)
-		if m.kind == '?' || m.view < v || c.signer > w.u.n {
+		if m.kind == '?' || m.view < v || c.signer > w.u.n || w.u.unusable[c.signer] {
 			continue
 		}
 		g := groups[m.key]
@@ -1043,7 +1186,7 @@ func (w *c07World) votersOf(b *hotstuff.Block) int {
 	msg := string(b.ToBytes())
 	n := 0
 	for i := 1; i <= w.u.n; i++ {
-		if w.held[c07Contrib{i, msg}] {
+		if w.held[c07Contrib{i, msg}] && !w.u.unusable[i] {
 			n++
 		}
 	}
@@ -1065,6 +1208,9 @@ func (w *c07World) culprit() string {
 		default:
 			set["accepted-"+k] = true
 		}
+	}
+	if w.opt.badPop != "" {
+		return "member-with-bad-proof-of-possession-counted"
 	}
 	if len(set) == 0 {
 		return "no-unsound-verdict-seen"
@@ -1159,7 +1305,7 @@ func (w *c07World) do(o *c07Out, s c07Stim) c07Obs {
 		msg := string(hotstuff.View(after.htc).ToBytes())
 		cnt := 0
 		for i := 1; i <= w.u.n; i++ {
-			if w.held[c07Contrib{i, msg}] {
+			if w.held[c07Contrib{i, msg}] && !w.u.unusable[i] {
 				cnt++
 			}
 		}
@@ -1361,6 +1507,7 @@ func c07Prefix(agg bool, which int) []c07Stim {
 }
 
 type c07Runner struct {
+	blsPop bool // random worlds rotate through the bad proof-of-possession kinds (BLS universe only)
 	o      *c07Out
 	u      *c07Univ
 	agg    bool
@@ -1465,6 +1612,18 @@ func (r *c07Runner) randSI(cv uint64) *c07SISpec {
 		c := c07AggCat(pv(), true)
 		si.Agg = c[1+r.rng.intn(len(c)-1)]
 	}
+	if r.blsPop { // aggregates forged with the rogue key, and certificates that need the member with the bad proof
+		switch r.rng.intn(6) {
+		case 0:
+			si.QC = &c07QCSpec{Kind: "forge", Block: c07Blk(pv())}
+		case 1:
+			si.TC = &c07TCSpec{Kind: "forge", View: pv()}
+		case 2:
+			si.TC = &c07TCSpec{Kind: "validHi", View: pv()}
+		case 3:
+			si.QC = &c07QCSpec{Kind: "validHi", Block: c07Blk(pv())}
+		}
+	}
 	return si
 }
 
@@ -1526,6 +1685,9 @@ func (r *c07Runner) random(seqs int) {
 		}
 		if commitWorld {
 			opt = c07Opt{stored: c07StoredCommit}
+		}
+		if r.blsPop {
+			opt.badPop = []string{"rogue", "other-key", "", "garbage", "rogue13", "missing"}[i%6]
 		}
 		w := r.freshO(nil, opt)
 		r.o.v.Count("world" + opt.tag())
@@ -1650,6 +1812,10 @@ func (r *c07Runner) random(seqs int) {
 				}
 			}
 			w.do(r.o, s)
+			if r.blsPop && (s.Op == "newview" || s.Op == "adv" || s.Op == "propose") && r.rng.intn(2) == 0 {
+				w.do(r.o, s) // the same message again: a rejection must not be forgotten
+				w.do(r.o, s)
+			}
 		}
 	}
 }
@@ -1889,6 +2055,77 @@ func (r *c07Runner) boundary3() {
 	}
 }
 
+// boundaryBLS: BLS12-381 worlds in which configured member 4 has a bad proof of possession (rogue key built from
+// the other members' keys, another key's proof, a garbage proof, no proof) or a good one.  Certificates that only
+// verify if member 4's registered key is used — forged aggregates made by that member alone (rogue key), and
+// genuine-looking certificates that need its signature to reach the quorum — are delivered several times in a row
+// in new-view messages, timeout sync infos, proposals and aggregate QCs, and single timeouts / votes of member 4
+// are repeated before the honest ones.  Ground truth: only members with usable keys count towards the q signers.
+func (r *c07Runner) boundaryBLS(search bool) {
+	nv := func(si c07SISpec) c07Stim { return c07Stim{Op: "newview", SI: &si} }
+	gqc := &c07QCSpec{Kind: "valid", Block: "G"}
+	to := func(w uint64, from int, si *c07SISpec) c07Stim {
+		if si == nil {
+			si = &c07SISpec{QC: gqc}
+		}
+		return c07Stim{Op: "timeout", View: w, From: from, Sig: "ok", SI: si}
+	}
+	vote := func(b string, from int) c07Stim { return c07Stim{Op: "vote", Block: b, From: from} }
+	rep := func(n int, s c07Stim) []c07Stim {
+		var l []c07Stim
+		for i := 0; i < n; i++ {
+			l = append(l, s)
+		}
+		return l
+	}
+	cat := func(ls ...[]c07Stim) []c07Stim {
+		var l []c07Stim
+		for _, x := range ls {
+			l = append(l, x...)
+		}
+		return l
+	}
+	opts := []c07Opt{{badPop: "rogue"}, {badPop: "rogue13", cache: 16}, {badPop: "other-key"}, {badPop: "garbage", cache: 16},
+		{badPop: "missing"}, {}}
+	if search || r.o.v.Thorough() {
+		opts = append(opts, c07Opt{badPop: "rogue", cache: 16}, c07Opt{badPop: "rogue13"}, c07Opt{badPop: "other-key", cache: 1},
+			c07Opt{badPop: "garbage"}, c07Opt{badPop: "missing", cache: 16, rot: "rr"})
+	}
+	for _, opt := range opts {
+		ftc := func(w uint64) *c07TCSpec { return &c07TCSpec{Kind: "forge", View: w} }
+		fqc := func(b string) *c07QCSpec { return &c07QCSpec{Kind: "forge", Block: b} }
+		seqs := [][]c07Stim{
+			// timeout certificates: forged for a far view, three times; then one that needs member 4, three times;
+			// then a genuine one
+			cat(rep(3, nv(c07SISpec{TC: ftc(7)})), rep(3, nv(c07SISpec{TC: &c07TCSpec{Kind: "validHi", View: 1}})),
+				rep(2, nv(c07SISpec{TC: ftc(1), QC: gqc})), []c07Stim{nv(c07SISpec{TC: &c07TCSpec{Kind: "valid", View: 1}})},
+				rep(2, nv(c07SISpec{TC: ftc(9)}))),
+			// quorum certificates
+			cat(rep(3, nv(c07SISpec{QC: fqc("b3")})), rep(3, nv(c07SISpec{QC: &c07QCSpec{Kind: "validHi", Block: "b1"}})),
+				rep(2, c07Stim{Op: "propose", View: 2, From: r.leader, Parent: "b1", SI: &c07SISpec{QC: fqc("b1")}}),
+				rep(2, nv(c07SISpec{Agg: &c07AggSpec{Kind: "valid", View: 1, High: fqc("b2")}})),
+				rep(2, c07Stim{Op: "hqc", SI: &c07SISpec{QC: fqc("b2")}}),
+				[]c07Stim{nv(c07SISpec{QC: &c07QCSpec{Kind: "valid", Block: "b1"}}), nv(c07SISpec{QC: fqc("b4")})}),
+			// carried by timeout messages of an honest sender
+			cat(rep(3, to(1, 2, &c07SISpec{QC: gqc, TC: ftc(5)})), rep(2, to(1, 3, &c07SISpec{QC: fqc("b2")})),
+				rep(2, to(1, 3, &c07SISpec{QC: gqc, Agg: &c07AggSpec{Kind: "validHi", View: 1}}))),
+			// member 4's own timeouts and votes, repeated, before the honest ones: 4 + 2 + 3 is not a quorum of usable keys
+			cat(rep(3, to(1, 4, nil)), []c07Stim{to(1, 2, nil), to(1, 4, nil), to(1, 3, nil), to(1, 4, nil)}),
+			cat(rep(3, vote("b1", 4)), []c07Stim{vote("b1", 2), vote("b1", 4), vote("b1", 3), vote("b1", 4)}),
+			// aggregate QCs that need member 4
+			cat(rep(3, nv(c07SISpec{Agg: &c07AggSpec{Kind: "validHi", View: 1}})), rep(2, nv(c07SISpec{Agg: &c07AggSpec{Kind: "cached", View: 1}, TC: ftc(1)})),
+				[]c07Stim{nv(c07SISpec{Agg: &c07AggSpec{Kind: "valid", View: 1}})}),
+		}
+		for _, seq := range seqs {
+			w := r.freshO(nil, opt)
+			r.o.v.Count("world" + opt.tag())
+			for _, s := range seq {
+				w.do(r.o, s)
+			}
+		}
+	}
+}
+
 func (r *c07Runner) leaderOf(opt c07Opt, v uint64) hotstuff.ID {
 	if opt.rot == "rr" {
 		return leaderrotation.ChooseRoundRobin(hotstuff.View(v), r.u.nFull)
@@ -1919,6 +2156,24 @@ func TestVerifC07(t *testing.T) {
 	}
 	var wg sync.WaitGroup
 	idx := 0
+	// BLS12-381: worlds with a member whose proof of possession is bad, plus a short general stream
+	for _, agg := range []bool{false, true} {
+		idx++
+		r := &c07Runner{o: o, u: c07NewUniv(crypto.NameBLS12, 4), agg: agg, leader: 2,
+			rng: &c07Rand{uint64(v.seed)*0x9E3779B97F4A7C15 + uint64(idx)*0xD1B54A32D192ED03 + 1}}
+		wg.Add(1)
+		go func() {
+			defer wg.Done()
+			defer func() {
+				if p := recover(); p != nil {
+					v.Oracle(false, "harness-panic", fmt.Sprint(p), r.u.scheme)
+				}
+			}()
+			r.boundaryBLS(search)
+			r.blsPop = true
+			r.random(c07Size(v, search, 6, 120))
+		}()
+	}
 	for _, c := range cfgs {
 		for _, agg := range []bool{false, true} {
 			for _, leader := range []int{2, 1} {
